@@ -60,3 +60,81 @@ def t_types(rep, prog, rule):
                 rep.bad(rule, key, c.at, "%s: the arm for pixel type %s instantiates %s (whose "
                         "pixel_type() is %s)" % (name, want, targs, got))
     rep.floor(rule, "typed instantiations in PixelType tables", n, 60)
+
+
+def clip_table(rep, prog, rule):
+    """contents of the compile-time lookup table of Normalizer16::clip"""
+    from ..sym import Sym, fmt
+    rep.rule(rule, "the lookup table behind Normalizer16::clip (a compile-time constant, read from "
+             "the compiled program, not computed here) holds clamp(i - OFFSET, 0, 255) for every "
+             "index i, and OFFSET is the constant that Normalizer16::clip adds to the shifted "
+             "accumulator before the lookup; the index is clamped to the table")
+    st = None
+    for k, v in prog.statics.items():
+        if k.endswith("CLIP8_LOOKUPS"):
+            st = v
+    f = prog.fn_by_name("convolution::optimisations::Normalizer16::clip")
+    rep.touch(f)
+    if st is None or "values" not in st:
+        rep.unk(rule, "table", f.loc, "table values not exported")
+        return
+    vals = st["values"]
+    sym = Sym(f)
+    off = None
+    hi = None
+    for c in f.calls():
+        if (c.method or "").startswith("saturating_add") or c.name.endswith("saturating_add"):
+            e = sym.operand(c.args[1], (c.bb, "term"))
+            if e[0] == "const":
+                off = e[1]
+        if (c.method or "") == "clamp" or c.name.endswith("::clamp"):
+            e = sym.operand(c.args[2], (c.bb, "term"))
+            if e[0] == "const":
+                hi = e[1]
+    if off is None:
+        rep.unk(rule, "offset", f.loc, "offset added before the lookup not found")
+        return
+    wrong = [i for i, v in enumerate(vals) if v != min(max(i - off, 0), 255)]
+    if wrong:
+        i = wrong[0]
+        rep.bad(rule, "table|content", f.loc, "CLIP8_LOOKUPS[%d] = %d but clip adds %d before the "
+                "lookup, so the entry must be clamp(%d - %d, 0, 255) = %d (%d entries differ)" % (
+                    i, vals[i], off, i, off, min(max(i - off, 0), 255), len(wrong)))
+    else:
+        rep.ok(rule, "table|content", f.loc, "%d entries equal clamp(i - %d, 0, 255)" % (len(vals), off))
+    if hi is None:
+        rep.unk(rule, "table|index", f.loc, "upper clamp of the index not found")
+    elif hi <= len(vals) - 1:
+        rep.ok(rule, "table|index", f.loc, "index clamped to [0, %d], table has %d entries" % (hi, len(vals)))
+    else:
+        rep.bad(rule, "table|index", f.loc, "index clamped to %d but the table has %d entries" % (hi, len(vals)))
+
+
+def recip_table(rep, prog, rule):
+    rep.rule(rule, "the reciprocal table of the portable 8-bit alpha division (a compile-time "
+             "constant read from the compiled program) holds round(255 * 2^PRECISION / a) for "
+             "a = 1..255 and 0 for a = 0 (alpha 0 gives colour 0), with PRECISION the shift that "
+             "div_and_clip applies")
+    st = prec = None
+    for k, v in prog.statics.items():
+        if k.endswith("alpha::common::RECIP_ALPHA"):
+            st = v
+        if k.endswith("alpha::common::PRECISION"):
+            prec = v.get("value")
+    f = prog.fn_by_name("alpha::common::div_and_clip")
+    rep.touch(f)
+    if st is None or "values" not in st or not isinstance(prec, int):
+        rep.unk(rule, "table", f.loc, "table values / precision not exported")
+        return
+    vals = st["values"]
+    wrong = []
+    for a, v in enumerate(vals):
+        want = 0 if a == 0 else (2 * 255 * (1 << prec) + a) // (2 * a)
+        if v != want:
+            wrong.append((a, v, want))
+    if wrong:
+        a, v, want = wrong[0]
+        rep.bad(rule, "table|content", f.loc, "RECIP_ALPHA[%d] = %d, round(255 * 2^%d / %d) = %d "
+                "(%d entries differ)" % (a, v, prec, a, want, len(wrong)))
+    else:
+        rep.ok(rule, "table|content", f.loc, "256 entries equal round(255 * 2^%d / a), entry 0 is 0" % prec)
